@@ -200,7 +200,7 @@ PROPS["C19"] = {
     ],
     "gen_items": [],
     "level": "proof",
-    "claim": "Lean 4 theorems over a state-machine model of the padding reader and writer: for every data, block size, source behaviour (short reads, zero-byte reads, data returned together with EOF) and caller buffer sizes the reader's output is always a prefix of data||pad and equals it once EOF is returned (invariant by induction over Read calls); for every sequence of write sizes the un-padding writer forwards exactly the un-padded stream and Final errs exactly on an invalid pad; un-pad inverts pad for block sizes 1..255. The stream helpers are compared with SM4-CBC of the padded stream computed in Lean, under scripted sources. Added (C19Stream): a model of the two helper loops of bloc_cryptor.go (io.ReadFull refills of a 1024-byte buffer over scripted sources, CryptBlocks with chained state, the padding reader / writer) with theorems for every data, every source script and both block sizes: enc_stream (the output is block-mode encryption of data||pad whatever the read pattern), dec_stream with exact characterisations of the two errors, enc_dec_stream / sm4_enc_dec_stream (decrypting the encryption returns the data, through any two read patterns), read_len (a Read into a non-empty buffer returns at most len(buf) bytes and, unless EOF, at least one); the driver now evaluates this model for p7stream / p7rt8 and cross-checks it against the spec answer.",
+    "claim": "Lean 4 theorems over a state-machine model of the padding reader and writer: for every data, block size, source behaviour (short reads, zero-byte reads, data returned together with EOF) and caller buffer sizes the reader's output is always a prefix of data||pad and equals it once EOF is returned (invariant by induction over Read calls); for every sequence of write sizes the un-padding writer forwards exactly the un-padded stream and Final errs exactly on an invalid pad; un-pad inverts pad for block sizes 1..255. The stream helpers are compared with SM4-CBC of the padded stream computed in Lean, under scripted sources. Added (C19Stream): a model of the two helper loops of bloc_cryptor.go (io.ReadFull refills of a 1024-byte buffer over scripted sources, CryptBlocks with chained state, the padding reader / writer) with theorems for every data, every source script and both block sizes: enc_stream (the output is block-mode encryption of data||pad whatever the read pattern), dec_stream with exact characterisations of the two errors, enc_dec_stream / sm4_enc_dec_stream (decrypting the encryption returns the data, through any two read patterns), read_len (a Read into a non-empty buffer returns at most len(buf) bytes and, unless EOF, at least one); the driver now evaluates this model for p7stream / p7rt8 and cross-checks it against the spec answer. Round 12: Final reports an error for every stream whose total length is not a multiple of the block size, whatever the chunking and the bytes (writer_rejects_misaligned, writer_ok_aligned; unpadStream requires whole blocks; false before repair 446adb5: old_writer_accepts_misaligned).",
     "note": "Trusted: Lean kernel; the hand-written model of sm4/padding is tied to the code by differential runs with a scripted io.Reader (same script semantics on both sides); crypto/cipher CBC, bytes.Buffer/bytes.Reader and io.ReadFull are stdlib; P7BlockEnc/Decrypt loops are covered by correspondence (SM4-CBC spec oracle; 3DES round trip for block size 8), not by a theorem.",
     "trusted_base": [
         "Model.Padding mirrors pkcs7_padding_io.go (Reader.read, fill = the inner read loop, Writer.write/final); tie = padrd/padwr correspondence over source lengths 0..600 (quick) / 0..5000 (thorough), block sizes 8 and 16, scripts of up to 6 entries over {0, 1, short, full, with-EOF}, buffer sizes 1..4096, write sizes 1..8192, invalid final blocks",
@@ -332,7 +332,7 @@ PROPS["C01"] = {
     ],
     "gen_items": ["sm2."],
     "level": "proof",
-    "claim": "Spec.SM2 is GM/T 0003.2 in Lean (reproduces the standard's example signature). Theorems: the completeness algebra verify(sign) over any commutative group with [q]G = O; r, s outside [1,n-1] or r+s = 0 mod n are rejected whatever else; a signature valid for digest e is accepted for e' iff e' = e mod n (exact characterisation: soundness against altered messages/IDs reduces to SM3); the strict DER codec of SEQUENCE{INTEGER r, INTEGER s} round-trips for all r,s < 2^256 and rejects trailing bytes. The real Sm2Sign/Sign/Sm2Verify/Verify are compared with the spec (exact r,s for the same nonce bytes, number of random bytes consumed, DER bytes, acceptance of every single-field perturbation and non-canonical encoding) on every run. Added (Proofs.SM2Affine / Props.SM2Group): the executable affine spec IS the group: padd_eq and smul_eq identify Spec.SM2.padd / smul (Fermat inversion, double-and-add) with addition and scalar multiplication of Mathlib's Weierstrass point group over ZMod p for every valid point (p, n prime by the Pratt/Lucas certificates), toPoint_inj transfers equalities back; hence verify_signWith: every signature signWith produces for any private key 1 <= d < n-1, digest e and nonce 1 <= k < n verifies under the public key [d]G — with no group-law hypothesis left.",
+    "claim": "Spec.SM2 is GM/T 0003.2 in Lean (reproduces the standard's example signature). Theorems: the completeness algebra verify(sign) over any commutative group with [q]G = O; r, s outside [1,n-1] or r+s = 0 mod n are rejected whatever else; a signature valid for digest e is accepted for e' iff e' = e mod n (exact characterisation: soundness against altered messages/IDs reduces to SM3); the strict DER codec of SEQUENCE{INTEGER r, INTEGER s} round-trips for all r,s < 2^256 and rejects trailing bytes. The real Sm2Sign/Sign/Sm2Verify/Verify are compared with the spec (exact r,s for the same nonce bytes, number of random bytes consumed, DER bytes, acceptance of every single-field perturbation and non-canonical encoding) on every run. Added (Proofs.SM2Affine / Props.SM2Group): the executable affine spec IS the group: padd_eq and smul_eq identify Spec.SM2.padd / smul (Fermat inversion, double-and-add) with addition and scalar multiplication of Mathlib's Weierstrass point group over ZMod p for every valid point (p, n prime by the Pratt/Lucas certificates), toPoint_inj transfers equalities back; hence verify_signWith: every signature signWith produces for any private key 1 <= d < n-1, digest e and nonce 1 <= k < n verifies under the public key [d]G — with no group-law hypothesis left. Round 12: history independence - sign / verify / ZA / digest steps run in one process are each judged alone by the spec (op sm2hist); Props.C01Hist: a per-call function is history independent and any too-coarse one-entry memo differs from it on some two-call history (memo_exposed_by_pair).",
     "note": "Hardness is never assumed as an axiom: soundness is the characterisation theorem. The group-law facts the completeness algebra needs are C03's. Signature DER is canonical: decSig b = some (r,s) iff b = encSig r s (Props.C14Codec.der_canonical_iff). Not proved: 'two signatures never share r' is reduced to fresh reader bytes (nonce = f(40 fresh bytes), checked by the consumed-bytes count in the correspondence).",
     "trusted_base": ["Spec.SM2.signWith/verifyE/za transcribe GM/T 0003.2; tie to sm2.go by sm2sign/sm2signder/sm2verify/sm2verifyder correspondence with deterministic readers; cryptobyte DER parsing is x/crypto code"],
     "assumptions": ["none at the level of the specification (Spec.SM2 is proved to be the group: Proofs.SM2Affine); that the Go limb arithmetic computes the same values is tied by the correspondence run (C03)"],
@@ -365,7 +365,7 @@ PROPS["C13"] = {
     ],
     "gen_items": ["sm2."],
     "level": "proof",
-    "claim": "Spec.SM2.kex is GM/T 0003.3 (reproduces the standard's example K, S1, S2). Theorems: over any commutative group both parties' points [tA](PB+[x2bar]RB) and [tB](PA+[x1bar]RA) coincide; xbar keeps the low 127 bits and sets bit 127; equal V gives identical (K, S1, S2) on both sides; an ephemeral point off the curve - including (0,0) - is an error. The repaired KeyExchangeA/B are compared with the spec for both roles (keys with leading-zero coordinates, identities 0..8192 bytes, key lengths 1..1024, off-curve / infinite ephemeral points). Added (Proofs.SM2Affine / Props.SM2Group): the executable affine spec IS the group: padd_eq and smul_eq identify Spec.SM2.padd / smul (Fermat inversion, double-and-add) with addition and scalar multiplication of Mathlib's Weierstrass point group over ZMod p for every valid point (p, n prime by the Pratt/Lucas certificates), toPoint_inj transfers equalities back; hence kex_agree: honest initiator and responder (any long-term and ephemeral scalars in range) compute identical key, S1 and S2 — the hypothesis hV of outputs_from_V is discharged.",
+    "claim": "Spec.SM2.kex is GM/T 0003.3 (reproduces the standard's example K, S1, S2). Theorems: over any commutative group both parties' points [tA](PB+[x2bar]RB) and [tB](PA+[x1bar]RA) coincide; xbar keeps the low 127 bits and sets bit 127; equal V gives identical (K, S1, S2) on both sides; an ephemeral point off the curve - including (0,0) - is an error. The repaired KeyExchangeA/B are compared with the spec for both roles (keys with leading-zero coordinates, identities 0..8192 bytes, key lengths 1..1024, off-curve / infinite ephemeral points). Added (Proofs.SM2Affine / Props.SM2Group): the executable affine spec IS the group: padd_eq and smul_eq identify Spec.SM2.padd / smul (Fermat inversion, double-and-add) with addition and scalar multiplication of Mathlib's Weierstrass point group over ZMod p for every valid point (p, n prime by the Pratt/Lucas certificates), toPoint_inj transfers equalities back; hence kex_agree: honest initiator and responder (any long-term and ephemeral scalars in range) compute identical key, S1 and S2 — the hypothesis hV of outputs_from_V is discharged. Round 12 (Model.KexGlue / Props.C13Glue): the byte-level glue of sm2.go over the SM3 object model - kdf = the standard's KDF for every list of parts and every length (kdf_eq, kdf_flag), ZA for every ID below 8192 bytes with a, b, Gx, Gy taken from the regenerated constants (za_eq, za_err, params_bytes), msgHash / Sm3Digest (msgHash_eq, sm3Digest_eq), and the assembly of K, S1, S2 from the shared point equals the tail of Spec.SM2.kex for both roles (glue_eq, kex_tail), the two roles agreeing byte for byte (glue_roles_agree); ops kdfx / zax / kexgluex run the real kdf (hook VerifKdf), ZA and KeyExchangeA/B against the model.",
     "note": "Trusted: the transcription of GM/T 0003.3 (validated on the published example: K = 6C893473..., S1 = D3A0FE15..., S2 = 18C7894B...); group facts from C03.",
     "trusted_base": ["Spec.SM2.kex; tie by sm2kex/sm2kexbad correspondence"],
     "assumptions": [],
@@ -383,7 +383,7 @@ PROPS["C14"] = {
     ],
     "gen_items": ["sm2."],
     "level": "proof",
-    "claim": "The codecs the library implements itself are specified in Lean and proved to round-trip for every value: hexadecimal text of any byte string, the fixed 32-byte big-endian integers behind the hex / uncompressed / compressed key forms (incl. leading zero nibbles and bytes), strict DER of (r,s); the loaders' decision is equality of the public points. The real code is compared with these specs (exact text/bytes) and every write->read pair is checked for equality on every run: hex private and public keys, compressed points (and Decompress on malformed input against a square-root spec), ASN.1 signatures and ciphertexts with short and high-bit integers, PKCS#8 PEM with nil / empty / ASCII / UTF-8 / 1 KiB passwords and wrong passwords differing in one character, case or length, PKIX public-key PEM, and all six key-pair loaders with the matching key, another key and the negated key. Added (C14Codec): byte-level models of Compress / Decompress (square root by exponentiation for p = 3 mod 4, parity fix-up) and of CipherMarshal / CipherUnmarshal (DER integers, left-padding to 32 bytes, encoding/asn1's length rules) with compress_roundtrip (every point on the curve, no side condition: the curve has no point with y = 0), decompress_sound, decompress_eq_none_iff, cipher_asn1_roundtrip (every raw ciphertext below 2^31 bytes, incl. leading-zero and high-bit coordinates) and cipherMarshal_eq_spec; the driver evaluates these models next to the spec (compressm / decompressm / cipherasn1m).",
+    "claim": "The codecs the library implements itself are specified in Lean and proved to round-trip for every value: hexadecimal text of any byte string, the fixed 32-byte big-endian integers behind the hex / uncompressed / compressed key forms (incl. leading zero nibbles and bytes), strict DER of (r,s); the loaders' decision is equality of the public points. The real code is compared with these specs (exact text/bytes) and every write->read pair is checked for equality on every run: hex private and public keys, compressed points (and Decompress on malformed input against a square-root spec), ASN.1 signatures and ciphertexts with short and high-bit integers, PKCS#8 PEM with nil / empty / ASCII / UTF-8 / 1 KiB passwords and wrong passwords differing in one character, case or length, PKIX public-key PEM, and all six key-pair loaders with the matching key, another key and the negated key. Added (C14Codec): byte-level models of Compress / Decompress (square root by exponentiation for p = 3 mod 4, parity fix-up) and of CipherMarshal / CipherUnmarshal (DER integers, left-padding to 32 bytes, encoding/asn1's length rules) with compress_roundtrip (every point on the curve, no side condition: the curve has no point with y = 0), decompress_sound, decompress_eq_none_iff, cipher_asn1_roundtrip (every raw ciphertext below 2^31 bytes, incl. leading-zero and high-bit coordinates) and cipherMarshal_eq_spec; the driver evaluates these models next to the spec (compressm / decompressm / cipherasn1m). Round 12 (Model.P8Env / Props.C14Env): the password-protected PKCS#8 envelope at structure level over an abstract block cipher, KDF and inner parser: parse (marshal k pwd) pwd = k (parse_marshal, private_key_roundtrip incl. nil / empty passwords), exact characterisation parse_ok_iff, every structural rejection (structural_rejections), and the open known finding as theorems: the verdict depends on the password only through the derived key (parse_only_via_key, second_password_opens, hmac_equivalent_passwords).",
     "note": "Partial: PKCS#8/PKIX/PEM whole-object round trips and password rejection go through encoding/asn1, encoding/pem, crypto/aes, PBKDF2 (stdlib) and are decided by read-back equality in the correspondence run, not by a theorem; compress_roundtrip's y-recovery (Euler criterion) is compared against a Lean square-root spec, not proved.",
     "trusted_base": ["toHex/ofHex, i2ospR, Spec.DER; tie by the C14 op set of the harness (intrinsic read-back oracles + exact encodings)"],
     "assumptions": ["Props.C14Env (password-protected PKCS#8 envelope, structure level): hED - the block cipher inverts (AES is stdlib, abstract); hInner - the inner PKCS#8 parser ignores trailing bytes (the code never strips the pad); hCodec - encoding/asn1 reads back the envelope it wrote; hRej - the inner parser rejects the mis-decrypted bytes (only for the wrong-password clause: parse_only_via_key / second_password_opens prove that a password with the same derived key is indistinguishable, which is the open known finding)"],
@@ -434,7 +434,7 @@ PROPS["C09"] = {
     "gen_items": ["x509."],
     "gen_obligations": ["Gen.X509.details / verifyHash / defaults / signInput_* regenerated from x509/x509.go and utils.go (signatureAlgorithmDetails, the switch in checkSignature, signingParamsForPublicKey, the raw-vs-digest guard of the three creators)"],
     "level": "proof",
-    "claim": "The decision tables of signing and verification are regenerated from the source on every run and the consistency theorem is exhaustive over them (the quantifier is the table): for every signer key family and every requested algorithm left to default or in-family, the creator accepts and the bytes the signer's scheme covers are exactly those the verifier checks for the algorithm recovered from the written OID; hash tables agree; OIDs identify algorithms. Whole objects are decided by the correspondence run: certificates, CSRs, v2 and legacy CRLs created from generated templates (negative / 20-byte serials, multi-valued and extra name attributes, UTCTime and GeneralizedTime validity, usages, constraints, SANs, name constraints, policies, extra extensions) x {SM2, RSA, ECDSA signer} x {unset, in-family, mismatching} algorithms are parsed back and compared field by field, verified under the issuer, refused under another key, and refused after every single-byte change (xor 0x01 and 0x80) of the signed bytes and of the signature BIT STRING incl. its unused-bits octet; a child issued under a parsed parent with an unusual subject must carry the parent's subject bytes and verify. Added (C09Ext): the hand-written extension codecs are modelled at byte level and proved: KeyUsage (reverseBitsInAByte, asn1BitLength, the 1-or-2 byte rule, the At(i) decode loop, the DER BIT STRING) round-trips for all 512 values, is minimal and injective; BasicConstraints encode/decode incl. the MaxPathLen/MaxPathLenZero conventions with an exact characterisation of which templates survive (basicConstraints_survives_iff), through the DER INTEGER layer for every int64; the model's extension value bytes and parsed fields are compared with real certificates for all 512 key usages and 88+ BasicConstraints templates on every run (kuext / bcext). Extension codecs at byte level (Model.X509Names, Props.C09Names, 92 theorems): subjectAltName, nameConstraints, extKeyUsage, subject / authority key id, certificatePolicies and CRL distribution points as buildExtensions writes them and parseCertificate reads them (the framing follows encoding/asn1's parseTagAndLength / parseBase128Int branch for branch): round trips for all well-formed inputs with the exact normal forms (san_roundtrip: IPv4-mapped addresses come back as 4 bytes; nameConstraints_roundtrip: empty names dropped, or unhandled when critical; eku_roundtrip: table OIDs given as unknown come back as known), injectivity of the SAN encoding on normal forms, long-form lengths and base-128 sub-identifiers for every value the reader accepts (der_len_roundtrip n < 2^31, oid_subid_roundtrip n <= MaxInt32, oid_subid_too_large), which extensions are emitted, in which order and which critical (san_emitted_iff, extension_order, critical_only). Ops sanext / sanparse / ncext / ncparse / ekuext / ekuparse / skiext / akiext / polext / crlext / extlist (775 quick).",
+    "claim": "The decision tables of signing and verification are regenerated from the source on every run and the consistency theorem is exhaustive over them (the quantifier is the table): for every signer key family and every requested algorithm left to default or in-family, the creator accepts and the bytes the signer's scheme covers are exactly those the verifier checks for the algorithm recovered from the written OID; hash tables agree; OIDs identify algorithms. Whole objects are decided by the correspondence run: certificates, CSRs, v2 and legacy CRLs created from generated templates (negative / 20-byte serials, multi-valued and extra name attributes, UTCTime and GeneralizedTime validity, usages, constraints, SANs, name constraints, policies, extra extensions) x {SM2, RSA, ECDSA signer} x {unset, in-family, mismatching} algorithms are parsed back and compared field by field, verified under the issuer, refused under another key, and refused after every single-byte change (xor 0x01 and 0x80) of the signed bytes and of the signature BIT STRING incl. its unused-bits octet; a child issued under a parsed parent with an unusual subject must carry the parent's subject bytes and verify. Added (C09Ext): the hand-written extension codecs are modelled at byte level and proved: KeyUsage (reverseBitsInAByte, asn1BitLength, the 1-or-2 byte rule, the At(i) decode loop, the DER BIT STRING) round-trips for all 512 values, is minimal and injective; BasicConstraints encode/decode incl. the MaxPathLen/MaxPathLenZero conventions with an exact characterisation of which templates survive (basicConstraints_survives_iff), through the DER INTEGER layer for every int64; the model's extension value bytes and parsed fields are compared with real certificates for all 512 key usages and 88+ BasicConstraints templates on every run (kuext / bcext). Extension codecs at byte level (Model.X509Names, Props.C09Names, 92 theorems): subjectAltName, nameConstraints, extKeyUsage, subject / authority key id, certificatePolicies and CRL distribution points as buildExtensions writes them and parseCertificate reads them (the framing follows encoding/asn1's parseTagAndLength / parseBase128Int branch for branch): round trips for all well-formed inputs with the exact normal forms (san_roundtrip: IPv4-mapped addresses come back as 4 bytes; nameConstraints_roundtrip: empty names dropped, or unhandled when critical; eku_roundtrip: table OIDs given as unknown come back as known), injectivity of the SAN encoding on normal forms, long-form lengths and base-128 sub-identifiers for every value the reader accepts (der_len_roundtrip n < 2^31, oid_subid_roundtrip n <= MaxInt32, oid_subid_too_large), which extensions are emitted, in which order and which critical (san_emitted_iff, extension_order, critical_only). Ops sanext / sanparse / ncext / ncparse / ekuext / ekuparse / skiext / akiext / polext / crlext / extlist (775 quick). Round 12: theorems over EVERY row of the regenerated algorithm table instead of a hand-written list - whatever signingParamsForPublicKey accepts for the signer's family is consistent with checkSignature, nothing the verifier rejects as insecure is accepted at creation (accepted_in_family_consistent, accepted_not_insecure, insecure_refused_at_creation, inFamily_complete; regenerated fact creatorRefuses; false before repair 291905f: md5_accepted_unverifiable_before_repair); the re-encoded-signature oracle also tries r + k.n and s + k.n; an ExtKeyUsage value without an OID is an error, not a panic (repair 54b86c2).",
     "note": "Partial: the ASN.1 layer (encoding/asn1 reflection-based marshal/unmarshal) is trusted and exercised, not modelled; field round trips are intrinsic read-back oracles evaluated by the harness on the real code, the Lean side supplies the accept/reject decision and the table theorems.",
     "trusted_base": ["extract/x509.go table extraction", "harness/c09.go template generator and field comparison", "crypto/rsa, crypto/ecdsa, encoding/asn1 (stdlib)"],
     "assumptions": [],
@@ -474,7 +474,7 @@ PROPS["C17"] = {
     ],
     "gen_items": [],
     "level": "proof",
-    "claim": "The parts of the containers that the library implements itself are modelled and proved for every input: the BER->DER transcoder's length octets read back as the same definite length on both sides of the 127/128 boundary (length_roundtrip, below 2^31), the enveloped-data block padding is removed exactly (unpad_pad, unpad_sound), BMPString passwords round-trip and are injective for every BMP string and astral characters are refused, the signed-data verdict is characterised outright (verify_signer_iff / verify_iff: known digest, signer certificate present, known algorithm pair, signature by the certified key over the content or over the DER SET of attributes whose message-digest attribute equals the digest of the content) with content_bound (another content is accepted only on a digest collision), and recipient handling (recipient_recovers for every recipient of a list with distinct issuer+serial, non_recipient_rejected). The models are executed against the real code on every run (ber2der on library-made DER, hand-made BER, mutated and 1000-deep inputs; pad/unpad; bmpString/decodeBMPString; Verify's verdict on 80 harness-built SM2 signed-data objects over 10 tamper kinds x attributes x detached x both SM3 OIDs), and whole containers are decided by intrinsic oracles on the real code: PKCS7Encrypt/PKCS7EncryptSM2 x {DES-CBC, AES-128-GCM} x {C1C3C2, C1C2C3} x 1..3 recipients x contents 0..64 KiB incl. lengths putting TLVs on the 127/128 boundary: every recipient recovers the content, a non-recipient and a recipient certificate with another key do not, every sampled single-byte corruption of an AES-GCM container gives an error or the same content; RSA SignedData through NewSignedData/AddSigner/Finish and SM2 SignedData assembled by the harness verify, and are refused after each tamper; pkcs12.Encode/DecodeAll with empty, ASCII, Cyrillic, CJK, 31/32/40/100-character passwords return the same key and certificate, refuse passwords differing in the last character, and no sampled single-byte corruption decodes to another key or certificate. Added (C17Idem): readObject_encodeTo / ber2der_encodeTo (every well-formed object's encoding is read back as that object) and ber2der_idempotent: whatever the transcoder outputs is mapped to itself (DER in, the same DER out), for outputs shorter than 2^31 bytes. PKCS#12 key derivation and integrity (Spec.PKCS12KDF, Model.PKCS12, Props.C17KDF): pkcs12/pbkdf.go as written (fillWithRepeats, the big.Int update of the I_j blocks with its drop-leading / left-pad branches, the iteration count) equals RFC 7292 B.2 for every salt, password, count, ID and size (pbkdf_eq_spec, pbkdf_sha1_eq_spec with SHA-1 transcribed in Spec.SHA1, updateBlock_eq, fillWithRepeats_spec, pbkdf_length; the literal 20 in place of u is exhibited by pbkdf_literal20_gap / _panic, unreachable with SHA-1); the MAC accepts exactly the stored digest of HMAC under the derived key (mac_accepts_iff), so a modified authenticated safe or another password is rejected unless HMAC / the KDF collide (mac_rejects_modified, wrong_password_rejected_unless_kdf_collision, as explicit hypotheses with satisfiable instances); which passwords getSafeContents tries - BMP(password), and for the empty password also nil - and that a MAC failure returns ErrIncorrectPassword and nothing else, whatever follows (empty_password_rule, nonempty_password_only_bmp, mac_failure_returns_nothing, mac_failure_never_reaches_rest). Tied by ops p12kdf / p12fill / p12mac / p12pbe / p12macrule (the generator searches the rare carry and short-block inputs with an independent reference).",
+    "claim": "The parts of the containers that the library implements itself are modelled and proved for every input: the BER->DER transcoder's length octets read back as the same definite length on both sides of the 127/128 boundary (length_roundtrip, below 2^31), the enveloped-data block padding is removed exactly (unpad_pad, unpad_sound), BMPString passwords round-trip and are injective for every BMP string and astral characters are refused, the signed-data verdict is characterised outright (verify_signer_iff / verify_iff: known digest, signer certificate present, known algorithm pair, signature by the certified key over the content or over the DER SET of attributes whose message-digest attribute equals the digest of the content) with content_bound (another content is accepted only on a digest collision), and recipient handling (recipient_recovers for every recipient of a list with distinct issuer+serial, non_recipient_rejected). The models are executed against the real code on every run (ber2der on library-made DER, hand-made BER, mutated and 1000-deep inputs; pad/unpad; bmpString/decodeBMPString; Verify's verdict on 80 harness-built SM2 signed-data objects over 10 tamper kinds x attributes x detached x both SM3 OIDs), and whole containers are decided by intrinsic oracles on the real code: PKCS7Encrypt/PKCS7EncryptSM2 x {DES-CBC, AES-128-GCM} x {C1C3C2, C1C2C3} x 1..3 recipients x contents 0..64 KiB incl. lengths putting TLVs on the 127/128 boundary: every recipient recovers the content, a non-recipient and a recipient certificate with another key do not, every sampled single-byte corruption of an AES-GCM container gives an error or the same content; RSA SignedData through NewSignedData/AddSigner/Finish and SM2 SignedData assembled by the harness verify, and are refused after each tamper; pkcs12.Encode/DecodeAll with empty, ASCII, Cyrillic, CJK, 31/32/40/100-character passwords return the same key and certificate, refuse passwords differing in the last character, and no sampled single-byte corruption decodes to another key or certificate. Added (C17Idem): readObject_encodeTo / ber2der_encodeTo (every well-formed object's encoding is read back as that object) and ber2der_idempotent: whatever the transcoder outputs is mapped to itself (DER in, the same DER out), for outputs shorter than 2^31 bytes. PKCS#12 key derivation and integrity (Spec.PKCS12KDF, Model.PKCS12, Props.C17KDF): pkcs12/pbkdf.go as written (fillWithRepeats, the big.Int update of the I_j blocks with its drop-leading / left-pad branches, the iteration count) equals RFC 7292 B.2 for every salt, password, count, ID and size (pbkdf_eq_spec, pbkdf_sha1_eq_spec with SHA-1 transcribed in Spec.SHA1, updateBlock_eq, fillWithRepeats_spec, pbkdf_length; the literal 20 in place of u is exhibited by pbkdf_literal20_gap / _panic, unreachable with SHA-1); the MAC accepts exactly the stored digest of HMAC under the derived key (mac_accepts_iff), so a modified authenticated safe or another password is rejected unless HMAC / the KDF collide (mac_rejects_modified, wrong_password_rejected_unless_kdf_collision, as explicit hypotheses with satisfiable instances); which passwords getSafeContents tries - BMP(password), and for the empty password also nil - and that a MAC failure returns ErrIncorrectPassword and nothing else, whatever follows (empty_password_rule, nonempty_password_only_bmp, mac_failure_returns_nothing, mac_failure_never_reaches_rest). Tied by ops p12kdf / p12fill / p12mac / p12pbe / p12macrule (the generator searches the rare carry and short-block inputs with an independent reference). Round 12: the PKCS#12 MAC check accepts only a digest of exactly the HMAC length equal to the expected MAC - proper prefixes, suffixes and extensions are refused for every length (Props.C17MacLen.mac_accepts_iff_exact_length, mac_proper_prefix_rejected, getSafeContents_wrong_length_rejected; ops p12macd / p12mactrunc with DER surgery on library-made bundles).",
     "note": "Partial: the cryptography under the containers (SM2/RSA key wrap, DES/AES, HMAC-SHA1, RC2/3DES PBE, PKCS#12 KDF, encoding/asn1) is exercised by the intrinsic oracles, not modelled; in the theorems it appears as parameters (Prims / EPrims with CorrectE). 'By no other key' is proved only relative to the wrap scheme refusing foreign keys (other_key_partial). DES-CBC content encryption is unauthenticated, so 'a corrupted container never yields other content' is asserted for AES-GCM only (see DESIGN.md, false alarms). A full ber2der(encodeTo o) = encodeTo o theorem over the recursive object type is not proved.",
     "trusted_base": ["Model.BER / Model.PKCS7 tied by the ber2der/p7pad/p7unpad/bmp/unbmp/p7v ops (exact output equality) and by intrinsic oracles p7env/p7sign/p12 in harness/c17.go", "hooks x509.VerifBer2der/VerifPad/VerifUnpad, pkcs12.VerifBmpString/VerifDecodeBMPString", "encoding/asn1, crypto/* (stdlib)"],
     "assumptions": ["CorrectE: unwrap(wrap k) = k, dec(enc m) = m for the right keys"],
@@ -527,7 +527,7 @@ PROPS["C18"] = {
     ],
     "gen_items": [],
     "level": "proof",
-    "claim": "Where a Lean model of a decoder exists, totality and resource bounds are theorems for every byte string: the BER transcoder model (tied to x509/ber.go by exact-output correspondence in C17 and here) is total by construction, every object it reads consumes at least two bytes and never claims bytes beyond the input (readObject_progress / readItems_progress), and the recursion is bounded by the remaining input: with fuel 2*(len-off)+1 the model never runs out (fuel_sufficient, ber2der_total) and the result does not depend on the fuel (fuel_irrelevant) — i.e. the stack depth and loop count of the real recursive descent are at most linear in the input; the repaired code refuses nesting deeper than 128 (depth_bounded, ber2der_depth; nested129_rejected / nested128_accepted show the bound is tight) and ber2der_cost bounds the bytes EncodeTo buffers by 129 x the output size; since the repair of the overlapping-member defect (fix 58832e0) the tree is linear in the input - an object read from k bytes has at most k/2 nodes (span_linear, ber2der_linear) and re-encodes to at most k + 9 x nodes bytes (encode_le_span), so an accepted n-byte input yields at most 5.5 n bytes (ber2der_output_linear): time and memory of ber2der are within a constant multiple of the input. The SM2 ciphertext parser (C02 decrypt_rejects_short: short input is an error, never an out-of-range slice), PKCS#7 unpad (C17 unpad_sound) and the ticket gate (C16) are total functions with the error branches proved. For all 62 decoder entry points of the library (sm2 Decrypt in both orderings / DecryptAsn1 / CipherUnmarshal / CipherMarshal / Verify / Decompress; x509 certificates, requests, CRLs, PKCS#7 + Verify/Decrypt/DecryptSM2 with every key-type combination incl. nil and typed nil, BER, PKCS#8 with and without password, PEM and hex keys; pkcs12 Decode/DecodeAll/ToPEM incl. correctly MAC-ed mutated contents; sm4 key PEM; all 16 gmtls handshake message parsers, the session-state parser and decryptTicket incl. correctly sealed mutated states) the check runs the quantifier's derivation on a corpus of valid encodings made by the library: every truncation, single-byte substitutions from {00,01,7f,80,ff,b^1,b^80}, every TLV length rewritten to {0,len-1,len+1,80,84ffffffff}, universal tag swaps, consistent re-sizing of elements, BER nesting 10..10^4 in definite and indefinite form, empty input and random strings (about 26000 ops quick, 296000 thorough); each call runs under recover with wall-time (max(2 s, 100 us/byte)) and allocation (64 MiB + 1024/byte) limits, decoded values are then used (verification, decryption, chain building) so that lazily crashing values count. Added: byte-level models with totality and bounds theorems now also exist for the session-state parser behind decryptTicket (C16Codec.unmarshal_total: never claims bytes beyond the input), point decompression (C14Codec.decompress_eq_none_iff: the exact set of rejected inputs) and the ASN.1 ciphertext converter (cipherMarshal_short: short input is an error), each tied to the real code by exact-output ops. Handshake message parsers (Model.TLSMessages, Props.C15Codec): for all 12 parsers with variable-length content, everything returned lies inside the input (unmarshalX_total_bounds, for every byte string), the certificate-count subtraction never wraps (certCount_sound), stray bytes after the last certificate entry are rejected even with consistent outer lengths (no_stray_bytes) and the strict parsers reject every accepted message followed by anything (unmarshalX_no_trailing); tied by the hsmsg/hsmsgm ops (panic vs reject vs fields, line for line). The hand-written subjectAltName parser is total and returns only slices of its input (Props.C09Names.decSAN_total, decSAN_sound, sanLoop_fuel).",
+    "claim": "Where a Lean model of a decoder exists, totality and resource bounds are theorems for every byte string: the BER transcoder model (tied to x509/ber.go by exact-output correspondence in C17 and here) is total by construction, every object it reads consumes at least two bytes and never claims bytes beyond the input (readObject_progress / readItems_progress), and the recursion is bounded by the remaining input: with fuel 2*(len-off)+1 the model never runs out (fuel_sufficient, ber2der_total) and the result does not depend on the fuel (fuel_irrelevant) — i.e. the stack depth and loop count of the real recursive descent are at most linear in the input; the repaired code refuses nesting deeper than 128 (depth_bounded, ber2der_depth; nested129_rejected / nested128_accepted show the bound is tight) and ber2der_cost bounds the bytes EncodeTo buffers by 129 x the output size; since the repair of the overlapping-member defect (fix 58832e0) the tree is linear in the input - an object read from k bytes has at most k/2 nodes (span_linear, ber2der_linear) and re-encodes to at most k + 9 x nodes bytes (encode_le_span), so an accepted n-byte input yields at most 5.5 n bytes (ber2der_output_linear): time and memory of ber2der are within a constant multiple of the input. The SM2 ciphertext parser (C02 decrypt_rejects_short: short input is an error, never an out-of-range slice), PKCS#7 unpad (C17 unpad_sound) and the ticket gate (C16) are total functions with the error branches proved. For all 62 decoder entry points of the library (sm2 Decrypt in both orderings / DecryptAsn1 / CipherUnmarshal / CipherMarshal / Verify / Decompress; x509 certificates, requests, CRLs, PKCS#7 + Verify/Decrypt/DecryptSM2 with every key-type combination incl. nil and typed nil, BER, PKCS#8 with and without password, PEM and hex keys; pkcs12 Decode/DecodeAll/ToPEM incl. correctly MAC-ed mutated contents; sm4 key PEM; all 16 gmtls handshake message parsers, the session-state parser and decryptTicket incl. correctly sealed mutated states) the check runs the quantifier's derivation on a corpus of valid encodings made by the library: every truncation, single-byte substitutions from {00,01,7f,80,ff,b^1,b^80}, every TLV length rewritten to {0,len-1,len+1,80,84ffffffff}, universal tag swaps, consistent re-sizing of elements, BER nesting 10..10^4 in definite and indefinite form, empty input and random strings (about 26000 ops quick, 296000 thorough); each call runs under recover with wall-time (max(2 s, 100 us/byte)) and allocation (64 MiB + 1024/byte) limits, decoded values are then used (verification, decryption, chain building) so that lazily crashing values count. Added: byte-level models with totality and bounds theorems now also exist for the session-state parser behind decryptTicket (C16Codec.unmarshal_total: never claims bytes beyond the input), point decompression (C14Codec.decompress_eq_none_iff: the exact set of rejected inputs) and the ASN.1 ciphertext converter (cipherMarshal_short: short input is an error), each tied to the real code by exact-output ops. Handshake message parsers (Model.TLSMessages, Props.C15Codec): for all 12 parsers with variable-length content, everything returned lies inside the input (unmarshalX_total_bounds, for every byte string), the certificate-count subtraction never wraps (certCount_sound), stray bytes after the last certificate entry are rejected even with consistent outer lengths (no_stray_bytes) and the strict parsers reject every accepted message followed by anything (unmarshalX_no_trailing); tied by the hsmsg/hsmsgm ops (panic vs reject vs fields, line for line). The hand-written subjectAltName parser is total and returns only slices of its input (Props.C09Names.decSAN_total, decSAN_sound, sanLoop_fuel). Round 12: the session-state decoder allocates at most len(input)/4 certificate slots (Props.C18TicketAlloc.unmarshal_count_bounded, allocSlots_linear) and accepts exactly what it accepted before the repair 7f2768c (unmarshal_accepts_same; witness old_decoder_unbounded); op sstalloc compares verdict and slot count and bounds the bytes allocated.",
     "note": "Partial: panic-freedom of the Go decoders themselves is decided by the mutation sweep, not by generated verification conditions (the VC generator of the design was not built); theorems cover the modelled decoders only (BER, SM2 ciphertext split, unpad, ticket gate). Password-stretching iteration counts carried by PKCS#8 / PKCS#12 inputs are exempt from the time limit, as the property says.",
     "trusted_base": ["Model.BER tied by the ber2der op (C17 generator plus the C18 nesting inputs)", "harness/c18.go limits and decoder table; hooks gmtls/pkcs12 export_verif_c18.go (parsers, ticket and PFX re-sealing)", "Go runtime recover() semantics; runtime.MemStats for the allocation measure"],
     "assumptions": [],
@@ -550,7 +550,7 @@ PROPS["C16"] = {
     "gen_items": ["gmtls."],
     "gen_obligations": ["Gen.TLS suite tables and default lists (shared with C06) regenerated from gmtls; gm_not_in_tls_defaults re-proved on every run"],
     "level": "proof",
-    "claim": "A Lean state machine of resumption (server gate checkForResumption over decryptTicket, ticket issue and refresh under rotated keys, the client's offer and its LRU cache) with theorems for every history of any length: the gate is characterised outright (gate_iff: tickets enabled, bytes unaltered, sealed under a still-configured key, same version, suite offered by the client and listed and servable by the server, client-certificate policy compatible; the resumed state is the sealed one), so an altered ticket, a retired key, disabled tickets never resume; an invariant proved by induction over all histories of connections / key rotations / suite-list / ClientAuth / ticket-switch changes and every cache capacity (inv_reach) gives history_resumption_sound: whatever both ends report as resumed carries the master secret, version, suite and client certificates of a full handshake earlier in that history; valid_ticket_resumes is the completeness direction (an explicitly listed suite is resumed); gm_default_never_resumes explains the silent fallback under the default GMSSL configuration. The model is executed against real gmtls clients and servers on every run: generated histories of up to 7 connections to two servers sharing one client cache of capacity 1..3, with rotations, policy and suite changes, ticket tampering (bit flip at any byte, truncation, extension) in GMSSL and TLS 1.2 mode; per connection the real outcome (full / resumed-from-which-handshake / error) must equal the model's, and intrinsic oracles check that both ends agree on DidResume, version, suite, exported keying material, that data flows both ways, that a resumed connection reports the original session's client and server certificates and a refreshed ticket keeps the original secret. Added (C16Codec): a byte-level model of sessionState.marshal / unmarshal (what a ticket seals) with unmarshal_marshal (every state within the length-field ranges round-trips), unmarshal_iff (the parser accepts exactly the canonical encodings of well-formed states: no trailing bytes, no second encoding), injectivity both ways and unmarshal_total (never claims bytes beyond the input); tied by the sstate / sstatem ops (parsed fields and re-marshalled bytes compared on valid states, every truncation, perturbed length fields, trailing bytes, random strings). The history model also carries the server's MaxVersion (TLS mode): a ticket of one protocol version is never resumed on a connection of another.",
+    "claim": "A Lean state machine of resumption (server gate checkForResumption over decryptTicket, ticket issue and refresh under rotated keys, the client's offer and its LRU cache) with theorems for every history of any length: the gate is characterised outright (gate_iff: tickets enabled, bytes unaltered, sealed under a still-configured key, same version, suite offered by the client and listed and servable by the server, client-certificate policy compatible; the resumed state is the sealed one), so an altered ticket, a retired key, disabled tickets never resume; an invariant proved by induction over all histories of connections / key rotations / suite-list / ClientAuth / ticket-switch changes and every cache capacity (inv_reach) gives history_resumption_sound: whatever both ends report as resumed carries the master secret, version, suite and client certificates of a full handshake earlier in that history; valid_ticket_resumes is the completeness direction (an explicitly listed suite is resumed); gm_default_never_resumes explains the silent fallback under the default GMSSL configuration. The model is executed against real gmtls clients and servers on every run: generated histories of up to 7 connections to two servers sharing one client cache of capacity 1..3, with rotations, policy and suite changes, ticket tampering (bit flip at any byte, truncation, extension) in GMSSL and TLS 1.2 mode; per connection the real outcome (full / resumed-from-which-handshake / error) must equal the model's, and intrinsic oracles check that both ends agree on DidResume, version, suite, exported keying material, that data flows both ways, that a resumed connection reports the original session's client and server certificates and a refreshed ticket keeps the original secret. Added (C16Codec): a byte-level model of sessionState.marshal / unmarshal (what a ticket seals) with unmarshal_marshal (every state within the length-field ranges round-trips), unmarshal_iff (the parser accepts exactly the canonical encodings of well-formed states: no trailing bytes, no second encoding), injectivity both ways and unmarshal_total (never claims bytes beyond the input); tied by the sstate / sstatem ops (parsed fields and re-marshalled bytes compared on valid states, every truncation, perturbed length fields, trailing bytes, random strings). The history model also carries the server's MaxVersion (TLS mode): a ticket of one protocol version is never resumed on a connection of another. Round 12: a ticket whose suite the ClientHello does not list never resumes, also for a foreign client that presents its ticket whatever its hello lists (Model.ResumeGraft, Props.C16Graft.suite_not_offered_never_resumes, foreign_not_offered_falls_back, history_foreign_resumption_sound; op resumeg).",
     "note": "Partial: tickets are abstract in the model (key name, sealed state, intact flag); AES-CTR/HMAC-SHA256 of ticket.go are exercised by the tamper sweep, not proved. The full-handshake part of the model (suite choice, client-certificate policy) is the small subset needed to predict fallbacks; C06 covers negotiation. Versions other than GMSSL 1.1 and TLS 1.2 and renegotiation are not modelled.",
     "trusted_base": ["Model.Resume tied to gmtls by the resume op (exact outcome sequence) in harness/c16.go; hook gmtls.VerifSessionInfo/VerifSessionWithTicket (read / re-ticket a cached client session)", "tlsDefaults in the model lists only the RSA-usable default suites the harness exercises"],
     "assumptions": ["ticket MAC: an altered ticket never verifies (modelled by the intact flag; exercised by the tamper sweep)"],
@@ -591,7 +591,7 @@ PROPS["C06"] = {
     "gen_items": ["gmtls."],
     "gen_obligations": ["Gen.TLS.cipherSuites / gmCipherSuites / topCipherSuites / gmDefaultSuites / version and limit constants regenerated from gmtls/cipher_suites.go, gm_support.go, common.go; tables_ok re-proved on every run"],
     "level": "proof",
-    "claim": "A Lean model of what the two ends agree on (mode dispatch incl. the auto-switch by ClientHello version for all 65536 values, mutualVersion, ClientHello suite lists, the server's preference/supported pick over the regenerated suite tables with the certificate-kind and TLS-1.2-only filters, the client-certificate policy table) with theorems: whatever completes uses a suite both ends list and the server can serve, the protocol version is GMSSL 1.1 exactly for a GMSSL client on a GMSSL-capable server (never across protocols), the client-certificate count follows the policy table (policy_table is an iff over all policies x certificate kinds), forbidden combinations fail, a GMSSL pair with a mutual servable suite and a permitted certificate situation completes. The model's verdict (ok version suite client-certs / fail) is compared with real connections on every run: server mode {GMSSL-only, auto-switch, TLS} x client {GMSSL, gmtls TLS 1.0/1.1/1.2, crypto/tls 1.0/1.1/1.2} and gmtls clients against a crypto/tls server x suite lists (default, single, ordered, ECDHE-first, mismatching) x PreferServerCipherSuites x ClientAuth 0..4 x client certificate {none, trusted, other CA} x certificates static / through GetCertificate+GetKECertificate x tickets on/off; intrinsic oracles: both ends complete or both fail (no panic, no hang), same version, suite, exported keying material, the client sees exactly the configured server certificates, and random payloads of 0..40000 bytes (200 KiB in the thorough tier) written concurrently in both directions in fragments of 0..70000 bytes arrive intact. Independent decoding: wire captures plus KeyLogWriter output of real GMSSL connections (both suites, with and without client authentication) are decoded by the Lean implementation of GM/T 0024 — SM3 PRF and key block (Spec.TLSPRF), record layer (Model.Record, C07) — which must reproduce both Finished verify_data values from the plaintext transcript and decrypt every application record to the bytes the applications wrote. Added (C06Keys): gm_premaster_agree / gm_keys_agree — with the SM2 spec proved to be a group action, the server's SM2 decryption of the ClientKeyExchange returns the client's pre-master secret for every key and nonce in range, hence both ends derive the same master secret and key block. Application data as a theorem (Props.C07Stream over Model.Record): for every list of writes of any sizes the receiver reads exactly their concatenation, in order (stream_preserved, stream_prefix, write_fragments), for SM4-CBC-SM3 and SM4-GCM. ECDHE over each NIST curve alone (P-256/384/521, X25519 not offered) is exercised so that shared secrets with leading zero bytes occur (every second P-521 handshake). At the level of the message automaton, every compatible pair of honest endpoints completes in both directions, for every configuration (Props.C15Complete.honest_pair_completes / honest_pair_both_done / honest_pair_completes_iff). Conn.Read's buffering as a model compared with the code (Model.ConnRead, Props.C06Read): for every list of decrypted records and every list of caller buffer sizes the bytes returned are a prefix of the data stream and all of it once the end is reported (read_stream), two ways of sizing the reads deliver the same bytes and the same ending (read_chunk_independent), a Read with room returns data or an error (read_progress), the close_notify look-ahead fires only when the current record is drained and never drops a byte (read_eof_lookahead, read_lookahead_no_drop); handshake messages are reassembled identically from every fragmentation of the stream (hs_reassembly, hs_fragmentation_independent). Ops connread / hsreasm / hsrecs.",
+    "claim": "A Lean model of what the two ends agree on (mode dispatch incl. the auto-switch by ClientHello version for all 65536 values, mutualVersion, ClientHello suite lists, the server's preference/supported pick over the regenerated suite tables with the certificate-kind and TLS-1.2-only filters, the client-certificate policy table) with theorems: whatever completes uses a suite both ends list and the server can serve, the protocol version is GMSSL 1.1 exactly for a GMSSL client on a GMSSL-capable server (never across protocols), the client-certificate count follows the policy table (policy_table is an iff over all policies x certificate kinds), forbidden combinations fail, a GMSSL pair with a mutual servable suite and a permitted certificate situation completes. The model's verdict (ok version suite client-certs / fail) is compared with real connections on every run: server mode {GMSSL-only, auto-switch, TLS} x client {GMSSL, gmtls TLS 1.0/1.1/1.2, crypto/tls 1.0/1.1/1.2} and gmtls clients against a crypto/tls server x suite lists (default, single, ordered, ECDHE-first, mismatching) x PreferServerCipherSuites x ClientAuth 0..4 x client certificate {none, trusted, other CA} x certificates static / through GetCertificate+GetKECertificate x tickets on/off; intrinsic oracles: both ends complete or both fail (no panic, no hang), same version, suite, exported keying material, the client sees exactly the configured server certificates, and random payloads of 0..40000 bytes (200 KiB in the thorough tier) written concurrently in both directions in fragments of 0..70000 bytes arrive intact. Independent decoding: wire captures plus KeyLogWriter output of real GMSSL connections (both suites, with and without client authentication) are decoded by the Lean implementation of GM/T 0024 — SM3 PRF and key block (Spec.TLSPRF), record layer (Model.Record, C07) — which must reproduce both Finished verify_data values from the plaintext transcript and decrypt every application record to the bytes the applications wrote. Added (C06Keys): gm_premaster_agree / gm_keys_agree — with the SM2 spec proved to be a group action, the server's SM2 decryption of the ClientKeyExchange returns the client's pre-master secret for every key and nonce in range, hence both ends derive the same master secret and key block. Application data as a theorem (Props.C07Stream over Model.Record): for every list of writes of any sizes the receiver reads exactly their concatenation, in order (stream_preserved, stream_prefix, write_fragments), for SM4-CBC-SM3 and SM4-GCM. ECDHE over each NIST curve alone (P-256/384/521, X25519 not offered) is exercised so that shared secrets with leading zero bytes occur (every second P-521 handshake). At the level of the message automaton, every compatible pair of honest endpoints completes in both directions, for every configuration (Props.C15Complete.honest_pair_completes / honest_pair_both_done / honest_pair_completes_iff). Conn.Read's buffering as a model compared with the code (Model.ConnRead, Props.C06Read): for every list of decrypted records and every list of caller buffer sizes the bytes returned are a prefix of the data stream and all of it once the end is reported (read_stream), two ways of sizing the reads deliver the same bytes and the same ending (read_chunk_independent), a Read with room returns data or an error (read_progress), the close_notify look-ahead fires only when the current record is drained and never drops a byte (read_eof_lookahead, read_lookahead_no_drop); handshake messages are reassembled identically from every fragmentation of the stream (hs_reassembly, hs_fragmentation_independent). Ops connread / hsreasm / hsrecs. Round 12: certificate selection of the two GM server modes as a model (Model.CertSelect: getCertificate with name map and wildcards, getGMSignCertificate, getEKCertificate): for static configurations both modes use Certificates[0] / [1] whatever the name map and the SNI (Props.C06AutoSNI.autoswitch_selects_like_gmonly; false before repair 30d6697: original_selected_encryption_certificate); a GMSSL-only server dispatches to the GM handshake only for client_version 0x0101 (gm_only_dispatch).",
     "note": "Partial: the theorems are about the negotiation model; key agreement (SM2 encryption of the pre-master secret, ECDHE/RSA for TLS), certificate verification (C08/C10) and the stdlib TLS 1.0-1.2 record protection are exercised, not modelled. For crypto/tls peers only single-suite lists are used because its preference order is its own. Independent decoding covers GMSSL; TLS 1.0-1.2 interoperability is decided by completing handshakes and exchanging data with the Go standard library.",
     "trusted_base": ["Model.Negotiate tied by the hs op; extract/tls.go table extraction", "Spec.TLSPRF transcribes GM/T 0024 6.5 / RFC 5246 5 (validated by decoding real connections: Finished values and records)", "crypto/tls (stdlib) as the reference TLS implementation"],
     "assumptions": [],
@@ -686,7 +686,7 @@ PROPS["C15"] = {
     ],
     "gen_items": [],
     "level": "proof",
-    "claim": "Model.Handshake is the message-acceptance automaton of the gmtls endpoints as the code is: the record-layer rules of readRecord/readHandshake (record type against phase, ChangeCipherSpec only when asked for and not while part of a message is buffered, oversized records and messages, at most 5 consecutive warning alerts, close_notify/fatal alert/EOF, the GMSSL client's missing haveVers) and the per-state type assertions of the GMSSL and TLS server and client (full, client-certificate, ticket and resumption variants, NPN, the TLS client's optional CertificateStatus/ServerKeyExchange/CertificateRequest), over an alphabet of 33 events. Proved for every configuration and EVERY finite event sequence: if the handshake completes with the last event, the sequence with tolerated events erased is one of the flights expected c, which are written out per role (done_only_expected, run_done_iff, expected_*); once the stream has ended no state keeps waiting (no_wait_after_eof, eof_is_error); in every state every event other than the at most two (TLS client: four) listed types and the tolerated ones is an error, with its alert (unexpected_is_error, unexpected_cases, unexpected_cases_ccs, expected_is_taken); every step errors, completes, moves to a later phase or is a tolerated event, the sixth consecutive warning alert is fatal, and a still-running endpoint has read at most 6*8+5 events other than empty records and record-boundary artefacts (progress, six_warnings_fatal, bounded_stall, stall_bound). Version dispatch for all client_version values at once by omega: below 0x0101 and in (0x0101,0x0300) every mode rejects; the auto-switch server enters GMSSL code iff v=0x0101, TLS code iff 0x0300<=v<=0x0303 at that version, and rejects everything else including all v>0x0303; a TLS-only server caps at 0x0303, a GMSSL-only server proceeds iff v=0x0101 (since the round-12 repair 4e42ea8; before, it ran the GM handshake at 0x0300..0x0303: gm_only_server_accepts_only_gmssl); no version without a PRF is ever negotiated (dispatch_*, dispatch_version_has_prf, auto_gm_iff); a hello with unsupported version, compression or suites is refused before any ServerHello and a ServerHello names an offered, servable suite (hello_refused, hello_suite_offered). Correspondence on every run: a man in the middle between the real endpoint under test and a genuine gmtls peer applies edit scripts to the stream towards the endpoint (drop, dup, swap, retype, insert any handshake type or record-level event incl. CCS, application data, alerts, empty/oversized/unknown/wrong-version records, truncation, length-field perturbation, split/join/trailing bytes, EOF before every item, EOF of the endpoint's own stream after every record), for GMSSL/TLS/auto-switch servers and GMSSL/TLS clients in full, client-cert, ticket and resumed handshakes, plus ClientHello version sweeps 0x0000..0x0400, suite lists of known and unknown ids and compression rewrites in all three server modes; Handshake's result, panics (both ends), waiting after end of stream (decided by exact deadlock detection, not time) and the alert written are compared line by line with the model (quick 1510 ops, thorough about 31 800: all single edits at every position, all pairs of order-level edits for the GMSSL roles, seeded multi-edit scripts). Added: the client's check of a ServerHello (version, suite in offered and known, null compression) is characterised outright (client_accepts_hello_iff, client_never_accepts_unoffered) and compared with the real client by the shmod op (man-in-the-middle rewrites of the genuine ServerHello). Byte level (Model.TLSMessages, Props.C15Codec, 157 theorems): unmarshal/marshal of all 16 handshake message kinds modelled step for step (both hellos with every recognised extension, both certificate-request layouts, the uint32 wrap in the certificate loop); per message an exact acceptance characterisation (unmarshalX_iff), the round trip unmarshal(marshal m) = m for well-formed m and canonicity where the parser is strict; where it is not strict the theorem says so (unmarshalFinished_any_tail, unmarshalCertificate_header_ignored, unmarshalCertificateStatus_other_trailing). Tied by ops hsmsg (every parsed field and marshal of the re-built struct compared) and hsmsgm (marshal on arbitrary, also out-of-range, fields): every truncation of short samples with and without fixed header length, boundary cuts, consistent resize mutations. Completeness (Props.C15Complete, for every configuration): the accepted language is characterised exactly - accepts_iff: a sequence is accepted iff it is one of the flights expected c with, before each message, a gap of tolerated events that respects the limits of the code (at most 5 consecutive warning alerts, reset only by an accepted message or a non-empty handshake record; while ChangeCipherSpec is awaited nothing but warning alerts); expected_accepted / accepts_iff_expected for sequences without tolerated events; what an honest endpoint writes (Model.HandshakeSends.sends, the stream the hsflight op compares with what the real peer wrote) is accepted by the other end in both directions for every compatible pair (honest_pair_completes, honest_pair_both_done, honest_pair_completes_iff), a server accepts exactly that one flight (server_completes_only_on_honest), a client exactly the honest flights of the servers it may face (client_expected_iff, gmClient_expected). The one incompatible combination is proved too: a GMSSL client that asked for OCSP stapling aborts on the CertificateStatus a GMSSL server would send (gm_ocsp_not_accepted); gmtls' own GMSSL client never sends status_request. Byte-level reassembly of handshake messages (Props.C06Read): a header announcing more than 65536 bytes is refused as soon as its 4 bytes are there (hs_too_long, readHandshake_tooLong), a stream ending inside a message is an error and never a message (hs_truncated_is_error), a Read sequence with non-empty buffers ends (read_terminates), ChangeCipherSpec is accepted only with an empty handshake buffer (ccs_requires_empty_hand); empty handshake records are skipped without limit, as the code does (hs_empty_records).",
+    "claim": "Model.Handshake is the message-acceptance automaton of the gmtls endpoints as the code is: the record-layer rules of readRecord/readHandshake (record type against phase, ChangeCipherSpec only when asked for and not while part of a message is buffered, oversized records and messages, at most 5 consecutive warning alerts, close_notify/fatal alert/EOF, the GMSSL client's missing haveVers) and the per-state type assertions of the GMSSL and TLS server and client (full, client-certificate, ticket and resumption variants, NPN, the TLS client's optional CertificateStatus/ServerKeyExchange/CertificateRequest), over an alphabet of 33 events. Proved for every configuration and EVERY finite event sequence: if the handshake completes with the last event, the sequence with tolerated events erased is one of the flights expected c, which are written out per role (done_only_expected, run_done_iff, expected_*); once the stream has ended no state keeps waiting (no_wait_after_eof, eof_is_error); in every state every event other than the at most two (TLS client: four) listed types and the tolerated ones is an error, with its alert (unexpected_is_error, unexpected_cases, unexpected_cases_ccs, expected_is_taken); every step errors, completes, moves to a later phase or is a tolerated event, the sixth consecutive warning alert is fatal, and a still-running endpoint has read at most 6*8+5 events other than empty records and record-boundary artefacts (progress, six_warnings_fatal, bounded_stall, stall_bound). Version dispatch for all client_version values at once by omega: below 0x0101 and in (0x0101,0x0300) every mode rejects; the auto-switch server enters GMSSL code iff v=0x0101, TLS code iff 0x0300<=v<=0x0303 at that version, and rejects everything else including all v>0x0303; a TLS-only server caps at 0x0303, a GMSSL-only server proceeds iff v=0x0101 (since the round-12 repair 4e42ea8; before, it ran the GM handshake at 0x0300..0x0303: gm_only_server_accepts_only_gmssl); no version without a PRF is ever negotiated (dispatch_*, dispatch_version_has_prf, auto_gm_iff); a hello with unsupported version, compression or suites is refused before any ServerHello and a ServerHello names an offered, servable suite (hello_refused, hello_suite_offered). Correspondence on every run: a man in the middle between the real endpoint under test and a genuine gmtls peer applies edit scripts to the stream towards the endpoint (drop, dup, swap, retype, insert any handshake type or record-level event incl. CCS, application data, alerts, empty/oversized/unknown/wrong-version records, truncation, length-field perturbation, split/join/trailing bytes, EOF before every item, EOF of the endpoint's own stream after every record), for GMSSL/TLS/auto-switch servers and GMSSL/TLS clients in full, client-cert, ticket and resumed handshakes, plus ClientHello version sweeps 0x0000..0x0400, suite lists of known and unknown ids and compression rewrites in all three server modes; Handshake's result, panics (both ends), waiting after end of stream (decided by exact deadlock detection, not time) and the alert written are compared line by line with the model (quick 1510 ops, thorough about 31 800: all single edits at every position, all pairs of order-level edits for the GMSSL roles, seeded multi-edit scripts). Added: the client's check of a ServerHello (version, suite in offered and known, null compression) is characterised outright (client_accepts_hello_iff, client_never_accepts_unoffered) and compared with the real client by the shmod op (man-in-the-middle rewrites of the genuine ServerHello). Byte level (Model.TLSMessages, Props.C15Codec, 157 theorems): unmarshal/marshal of all 16 handshake message kinds modelled step for step (both hellos with every recognised extension, both certificate-request layouts, the uint32 wrap in the certificate loop); per message an exact acceptance characterisation (unmarshalX_iff), the round trip unmarshal(marshal m) = m for well-formed m and canonicity where the parser is strict; where it is not strict the theorem says so (unmarshalFinished_any_tail, unmarshalCertificate_header_ignored, unmarshalCertificateStatus_other_trailing). Tied by ops hsmsg (every parsed field and marshal of the re-built struct compared) and hsmsgm (marshal on arbitrary, also out-of-range, fields): every truncation of short samples with and without fixed header length, boundary cuts, consistent resize mutations. Completeness (Props.C15Complete, for every configuration): the accepted language is characterised exactly - accepts_iff: a sequence is accepted iff it is one of the flights expected c with, before each message, a gap of tolerated events that respects the limits of the code (at most 5 consecutive warning alerts, reset only by an accepted message or a non-empty handshake record; while ChangeCipherSpec is awaited nothing but warning alerts); expected_accepted / accepts_iff_expected for sequences without tolerated events; what an honest endpoint writes (Model.HandshakeSends.sends, the stream the hsflight op compares with what the real peer wrote) is accepted by the other end in both directions for every compatible pair (honest_pair_completes, honest_pair_both_done, honest_pair_completes_iff), a server accepts exactly that one flight (server_completes_only_on_honest), a client exactly the honest flights of the servers it may face (client_expected_iff, gmClient_expected). The one incompatible combination is proved too: a GMSSL client that asked for OCSP stapling aborts on the CertificateStatus a GMSSL server would send (gm_ocsp_not_accepted); gmtls' own GMSSL client never sends status_request. Byte-level reassembly of handshake messages (Props.C06Read): a header announcing more than 65536 bytes is refused as soon as its 4 bytes are there (hs_too_long, readHandshake_tooLong), a stream ending inside a message is an error and never a message (hs_truncated_is_error), a Read sequence with non-empty buffers ends (read_terminates), ChangeCipherSpec is accepted only with an empty handshake buffer (ccs_requires_empty_hand); empty handshake records are skipped without limit, as the code does (hs_empty_records). Round 12: the GM server handshake proceeds iff client_version = 0x0101, for every version and every configured window, in GMSSL-only mode and on the GM branch of the auto-switch server (Props.C15Limits.gm_only_server_accepts_only_gmssl, gm_only_server_proceeds_iff, auto_gm_agrees_with_gm_only; false before repair 4e42ea8; op gmvers with a cooperating peer).",
     "note": "Partial: message contents are not modelled; a message of the expected type is taken to carry what the genuine peer wrote. The two content outcomes the state machine depends on are explicit events: malformed (body fails to unmarshal) and finishedBad (verify_data mismatch). The driver carries the abstract rule 'an edit that changes the bytes E hashes makes the transcripts differ, so the peer rejects E's answer / E's Finished check fails'; for trunc/len edits only done/error is compared (whether the parser notices is C18's subject), for all other edits the alert code is compared too (printed 'enc' once the endpoint writes under its new keys). A protected record cannot be forged by the man in the middle, so events after ChangeCipherSpec are limited to the genuine Finished and records that fail decryption. NPN and OCSP-status branches of the automaton are proved but not exercised (two gmtls peers never negotiate them). Certificate policy outcomes (empty certificate under Require*) are content-level and not in the automaton. The code does not bound empty handshake records (empty_records_unbounded) and a TLS-only/GMSSL-only server lets 0x0101 resp. >=0x0300 through mutualVersion; both are modelled as they are and listed in harness/c15_findings.txt.",
     "trusted_base": ["Model.Handshake tied by the hsseq/hsflight/hsout/chmod ops (exact line equality incl. alert code) in harness/c15.go; the script->event translation Driver/Handshake.lean (streamOf, cipherPass, taints)", "harness deadlock detector (qWorld: all readers blocked on empty pipes) and the intrinsic oracles panic / hang / completed-on-misbehaviour", "harness/tls.go PKI and config builders; the genuine gmtls peer", "Go runtime recover()"],
     "assumptions": ["messages of the expected type carry what an honest peer sends (contents outside the model)", "transcripts that differ never produce a matching Finished (collision resistance of SM3/SHA-256 and the PRF) — used only in the driver's translation, stated there", "default Config version limits (MinVersion/MaxVersion unset)"],
@@ -711,7 +711,7 @@ PROPS["C08"] = {
     ],
     "gen_items": [],
     "level": "proof",
-    "claim": "Model.HandshakeAuth states the acceptance decision of each side of gmtls' GM/T 0024 full handshake (ECC suites e013/e053) as the ordered list of checks the code performs, over what that side received; what it sends and the transcript it hashes are computed, so 'same view' is an equation between message lists. Proved: client_accepts_iff / client_accepts_only_if (completes => >=2 certificates, all parse with SM2 keys, cert[0] may sign and cert[1] may encipher, InsecureSkipVerify or both chains verify against the roots at the configured time for the server name - client_chain_meaning unfolds this through C10 verify_sound -, a ServerKeyExchange whose signature verifies under cert[0]'s key over THIS client random, THIS server random and THIS cert[1], pre-master secret encrypted to cert[1]'s key, server Finished = PRF(master, SM3(own transcript))); server_accepts_iff / server_accepts_only_if and client_auth_policy_table (full ClientAuth table as an iff: no Certificate message for NoClientCert; non-empty list for the Require* policies; leaf verified against ClientCAs with EKU clientAuth for the *Verify* policies; CertificateVerify valid under the leaf key over the digest of the server's own transcript exactly when a certificate was given; ClientKeyExchange decrypted with the server's own key; client Finished over the server's transcript). Under the explicit hypothesis Binding (PRF and transcript hash injective): client_finished_binds / server_finished_binds / agree_or_abort (a side that accepts its peer's Finished holds the peer's transcript and master secret), tamper_detected(_by_server), possession_needed (a Finished from any other master secret is refused), run_never_diverges (in the composed connection, whatever is rewritten in transit short of forging a Finished, a client that completes holds the server's transcript). Under Unforgeable: foreign_ske_rejected / foreign_cv_rejected (signature by another key, or over other randoms / other encryption certificate / other transcript). ideal_binding and ideal_unforgeable show both hypotheses are satisfiable by the primitives the executed model uses, so run_never_diverges_ideal holds with no hypothesis. Correspondence: op `auth` runs a real gmtls client against a real gmtls server per line and the Lean driver prints the model's verdict for the same line: 5 ClientAuth policies x 7 client-certificate kinds, 23 mis-configured servers, scripted malicious ends with a consistent transcript (key-exchange signature over other/swapped randoms, other certificate, no length prefix, by another key, empty, replayed from a session with the same server random; CertificateVerify replayed / over another digest / empty; ServerKeyExchange omitted; Finished wrong except its first byte, first 11 bytes, or in its last bit, both directions; substituted pre-master secret), 44 single-field rewrites by a man in the middle plus drop/duplicate of every message and byte flips (sampled in quick, every byte in thorough), InsecureSkipVerify on and off, both suites. Intrinsic oracles: both ends complete => same version, suite, exported keying material and peer certificates; client completes with verification on => verified chain to the trusted root; server never completes when a message it hashed was altered; no panic, no hang.",
+    "claim": "Model.HandshakeAuth states the acceptance decision of each side of gmtls' GM/T 0024 full handshake (ECC suites e013/e053) as the ordered list of checks the code performs, over what that side received; what it sends and the transcript it hashes are computed, so 'same view' is an equation between message lists. Proved: client_accepts_iff / client_accepts_only_if (completes => >=2 certificates, all parse with SM2 keys, cert[0] may sign and cert[1] may encipher, InsecureSkipVerify or both chains verify against the roots at the configured time for the server name - client_chain_meaning unfolds this through C10 verify_sound -, a ServerKeyExchange whose signature verifies under cert[0]'s key over THIS client random, THIS server random and THIS cert[1], pre-master secret encrypted to cert[1]'s key, server Finished = PRF(master, SM3(own transcript))); server_accepts_iff / server_accepts_only_if and client_auth_policy_table (full ClientAuth table as an iff: no Certificate message for NoClientCert; non-empty list for the Require* policies; leaf verified against ClientCAs with EKU clientAuth for the *Verify* policies; CertificateVerify valid under the leaf key over the digest of the server's own transcript exactly when a certificate was given; ClientKeyExchange decrypted with the server's own key; client Finished over the server's transcript). Under the explicit hypothesis Binding (PRF and transcript hash injective): client_finished_binds / server_finished_binds / agree_or_abort (a side that accepts its peer's Finished holds the peer's transcript and master secret), tamper_detected(_by_server), possession_needed (a Finished from any other master secret is refused), run_never_diverges (in the composed connection, whatever is rewritten in transit short of forging a Finished, a client that completes holds the server's transcript). Under Unforgeable: foreign_ske_rejected / foreign_cv_rejected (signature by another key, or over other randoms / other encryption certificate / other transcript). ideal_binding and ideal_unforgeable show both hypotheses are satisfiable by the primitives the executed model uses, so run_never_diverges_ideal holds with no hypothesis. Correspondence: op `auth` runs a real gmtls client against a real gmtls server per line and the Lean driver prints the model's verdict for the same line: 5 ClientAuth policies x 7 client-certificate kinds, 23 mis-configured servers, scripted malicious ends with a consistent transcript (key-exchange signature over other/swapped randoms, other certificate, no length prefix, by another key, empty, replayed from a session with the same server random; CertificateVerify replayed / over another digest / empty; ServerKeyExchange omitted; Finished wrong except its first byte, first 11 bytes, or in its last bit, both directions; substituted pre-master secret), 44 single-field rewrites by a man in the middle plus drop/duplicate of every message and byte flips (sampled in quick, every byte in thorough), InsecureSkipVerify on and off, both suites. Intrinsic oracles: both ends complete => same version, suite, exported keying material and peer certificates; client completes with verification on => verified chain to the trusted root; server never completes when a message it hashed was altered; no panic, no hang. Round 12: resumption seen from C08 - the server never completes under a Require* policy from a ticket that carries no client certificate, for every policy history and every way of sharing ticket keys (Props.C08Resume.history_meets_policy, require_never_resumes_anonymous; op rauth); the client offers a cached session only if it holds a verified chain and leaves that are unexpired and valid for ServerName (Model.ClientResume, Props.C08ClientResume.client_resumes_only_verified, insecure_session_not_resumed; false before repair 61cc5d9: old_gate_witness; op cliresume).",
     "note": "Partial by nature: unforgeability, collision resistance and decryption-needs-the-key are hypotheses (Binding, Unforgeable, Prims.dec), not theorems. Not modelled: resumption / tickets, renegotiation, ECDHE suites (server side unimplemented; clients are configured with the ECC suites), VerifyPeerCertificate, ALPN/OCSP/SCT extensions (opaque), record-layer protection of Finished (Wire.finC/finS deliver or drop). DNS-name matching is evaluated by the driver on every run but not by the kernel examples (String functions do not reduce in the kernel: they use an IP-named server). mitm-... lines compare the canonical abort / both-done; malicious-end lines compare c=.. s=.. exactly.",
     "trusted_base": ["Model.HandshakeAuth mirrors gm_handshake_client_double.go:171-397,501-528, gm_handshake_server_double.go:114-247,324-511,538-688, gm_key_agreement.go:312-454, common.go mutualVersion; tie = op `auth` (harness/c08.go vs Driver/HandshakeAuth.lean: certificate table, attack -> abstract view mapping)", "Model.X509.verify (C10) as the chain-verification predicate", "hook gmtls/export_verif_c08.go (scripted malicious peers: copies of the GM full handshake with omit-ServerKeyExchange / wrong-Finished knobs; attacker side only)", "harness/tls.go in-memory transport and PKI; c08Run stall rule (an end still waiting for input after 4 s counts as abort; an end that does not return after its streams end is a hang)"],
     "assumptions": ["Binding: P.prf injective in (master, digest) per label, P.hash injective on message lists", "Unforgeable: sigOK k m (sign k' m') -> k = k' and m = m'", "x509.ParseCertificate abstracted as Prims.parse; SM2 decryption as Prims.dec"],
@@ -739,7 +739,7 @@ PROPS["C20"] = {
     "par_chunk": 3,
     "op_timeout": 400,
     "level": "proof",
-    "claim": "What is proved: the sequential models of the shared objects are order-independent — every Encrypt/Decrypt result on one shared SM4 object is the GM/T 0002 value of that call's own source block for every call sequence, hence for every interleaving of any number of callers' sequences (sm4_order_independent, sm4_interleaving, from C05.history_independent); hash objects from the constructor are independent (sm3_objects_independent, from C04.hist_refines); a ticket lookup concurrent with a key rotation sees the old or the new key list, never a mixture (ticket_keys_snapshot). These make 'equals the single-threaded result' a well-defined oracle. What is run: ten concurrent scenarios (one shared sm4 cipher.Block also under CBC/GCM; the package-level sm4 helpers; sm3 constructors, HMAC, PBKDF2; SM2 sign/verify/encrypt/decrypt/key exchange on one shared key and on separate keys; first use of the curve from many goroutines in a fresh process; parsers on shared inputs; PKCS#7 encryption; one CertPool under concurrent Verify with succeeding and failing options; many simultaneous GMSSL handshakes on one server Config and one client Config with an LRU session cache while SetSessionTicketKeys rotates keys; concurrent writers, readers and three concurrent Close calls on one established GMSSL-CBC / GMSSL-GCM / TLS 1.2 connection), each in its own process built with the Go race detector (halt on first report), 2..32 goroutines released together with seeded scheduling jitter; every concurrent result is compared with the result of the same calls run sequentially on identical fresh objects. Added (C20Interlock, Model.ConnInterlock): the Write/Close interlock of Conn (the atomic activeCall counter) as a transition system with any number of writer and closer threads, and theorems over ALL schedules: counter_invariant (activeCall = 2 x writers in flight + closed bit), at_most_one_close_proceeds, close_idempotent, no_write_after_close, close_notify_only_when_quiet (close_notify is sent at most once and only if no Write was in flight at the winning CAS), linearizable_outcomes (the per-thread verdicts of any schedule equal those of a sequential order: the writers that got through, the winning Close, the rest refused) and progress (every fair schedule terminates; bounded retries); the constants of the model are pinned to the source by the extractor (constants_pinned). Lock discipline of one connection as a static analysis over regenerated facts (Model.ConnLocks, Props.C20Locks): for ALL call paths from an exported method - any depth, recursion allowed - the lock-set tables are sound (must_sound, may_sound: induction over paths from the two table checks), hence whenever the state of the read half or the write half is touched, directly or through a halfConn method, the goroutine holds that half's mutex or the handshake mutex (half_protected, half_call_protected), no goroutine locks a mutex it already holds (no_reacquire), and the lock-order edges are the four known ones (order_edges_expected). On the code as found this analysis failed at exactly one call site (readHandshake -> sendAlertLocked holding c.in only), a genuine race confirmed by the race detector (op conc renegbig) and repaired (fix 1d83437). Scenarios renegrefuse / renegbig run Read and several Writes on one connection while the peer sends a post-handshake handshake record.",
+    "claim": "What is proved: the sequential models of the shared objects are order-independent — every Encrypt/Decrypt result on one shared SM4 object is the GM/T 0002 value of that call's own source block for every call sequence, hence for every interleaving of any number of callers' sequences (sm4_order_independent, sm4_interleaving, from C05.history_independent); hash objects from the constructor are independent (sm3_objects_independent, from C04.hist_refines); a ticket lookup concurrent with a key rotation sees the old or the new key list, never a mixture (ticket_keys_snapshot). These make 'equals the single-threaded result' a well-defined oracle. What is run: ten concurrent scenarios (one shared sm4 cipher.Block also under CBC/GCM; the package-level sm4 helpers; sm3 constructors, HMAC, PBKDF2; SM2 sign/verify/encrypt/decrypt/key exchange on one shared key and on separate keys; first use of the curve from many goroutines in a fresh process; parsers on shared inputs; PKCS#7 encryption; one CertPool under concurrent Verify with succeeding and failing options; many simultaneous GMSSL handshakes on one server Config and one client Config with an LRU session cache while SetSessionTicketKeys rotates keys; concurrent writers, readers and three concurrent Close calls on one established GMSSL-CBC / GMSSL-GCM / TLS 1.2 connection), each in its own process built with the Go race detector (halt on first report), 2..32 goroutines released together with seeded scheduling jitter; every concurrent result is compared with the result of the same calls run sequentially on identical fresh objects. Added (C20Interlock, Model.ConnInterlock): the Write/Close interlock of Conn (the atomic activeCall counter) as a transition system with any number of writer and closer threads, and theorems over ALL schedules: counter_invariant (activeCall = 2 x writers in flight + closed bit), at_most_one_close_proceeds, close_idempotent, no_write_after_close, close_notify_only_when_quiet (close_notify is sent at most once and only if no Write was in flight at the winning CAS), linearizable_outcomes (the per-thread verdicts of any schedule equal those of a sequential order: the writers that got through, the winning Close, the rest refused) and progress (every fair schedule terminates; bounded retries); the constants of the model are pinned to the source by the extractor (constants_pinned). Lock discipline of one connection as a static analysis over regenerated facts (Model.ConnLocks, Props.C20Locks): for ALL call paths from an exported method - any depth, recursion allowed - the lock-set tables are sound (must_sound, may_sound: induction over paths from the two table checks), hence whenever the state of the read half or the write half is touched, directly or through a halfConn method, the goroutine holds that half's mutex or the handshake mutex (half_protected, half_call_protected), no goroutine locks a mutex it already holds (no_reacquire), and the lock-order edges are the four known ones (order_edges_expected). On the code as found this analysis failed at exactly one call site (readHandshake -> sendAlertLocked holding c.in only), a genuine race confirmed by the race detector (op conc renegbig) and repaired (fix 1d83437). Scenarios renegrefuse / renegbig run Read and several Writes on one connection while the peer sends a post-handshake handshake record. Round 12: regenerated access facts of the other shared objects (Gen.SharedLocks: lruSessionCache, Config.sessionTicketKeys, write sites of Config and x509.CertPool) with the discipline proved over them (Props.C20Shared.discipline_ok, cache_always_exclusive, ticket_key_writers, certpool_writers, no_reentrant_calls, facts_present); the candidate assembly of findVerifiedParents at the level of slices and backing arrays writes no pre-existing allocation (Props.C20Pool.candMem_frame, with kernel-checked witnesses of what the aliasing variant does); scenario poolkeyid.",
     "note": "Partial by nature: data-race freedom and the outcome of real schedules are properties of the Go runtime and memory model that no executable Lean model exhibits; the race detector only sees the interleavings that occur in the runs (quick: 20 scenario runs, thorough: 120). The theorems are about sequential order-independence of the modelled cores only (SM4 object, SM3 object, ticket-key snapshot); Conn's locking discipline (handshakeMutex, in/out mutexes, activeCall) is exercised by the tlsconn scenario, not modelled.",
     "trusted_base": ["Go race detector (ThreadSanitizer runtime shipped with the toolchain)", "harness/c20.go scenarios and sequential reference pass", "Model.SM4 / Model.SM3 / Model.Resume ties of C05, C04, C16"],
     "assumptions": ["a concurrent execution of whole calls on a correctly synchronised object is equivalent to some sequential order (linearizability is what the race-free, lock-protected code provides; it is not proved)"],
